@@ -14,4 +14,5 @@ let () =
   match mode with
   | "c18" -> per_line M_c18.line
   | "c18s" -> per_line M_c18.sline
+  | "c15" -> per_line M_c15.line
   | _ -> prerr_endline ("unknown mode " ^ mode); exit 2
